@@ -54,6 +54,8 @@ def main():
             os.makedirs(os.path.dirname(os.path.join(wt, demo_path)), exist_ok=True)
             shutil.copyfile(demo, os.path.join(wt, demo_path))
             test_name = os.path.splitext(os.path.basename(demo_path))[0]
+            rel = " --release" if "--release" in str(meta.get("demo_cmd", "")) else ""
+            test_name = test_name + rel
             rc1, out1 = sh("cargo test --offline --test %s 2>&1 | tail -40" % test_name, cwd=wt)
             fails_with = "test result: FAILED" in out1 or "panicked" in out1 or "error: test failed" in out1
             os.unlink(os.path.join(wt, demo_path))
